@@ -37,6 +37,8 @@ type c35Chan struct {
 	MaxPkt    uint32   `json:"max_pkt"` // refpeer's maximum packet size
 	Out       int      `json:"out"`     // bytes the Go side writes to stdout
 	Err       int      `json:"err"`     // ... to stderr (extended data 1)
+	Ext2      int      `json:"ext2"`    // ... to a second extended stream (type code Code2 > 1), concurrently
+	Code2     uint32   `json:"code2"`
 	OutChunk  int      `json:"out_chunk"`
 	Grants    []uint32 `json:"grants"` // WINDOW_ADJUST amounts, in order; afterwards Refill
 	Refill    uint32   `json:"refill"`
@@ -93,6 +95,14 @@ func genC35Plan(t *rapid.T) *c35Plan {
 		if pick(t, "noerr", 3) == 0 {
 			c.Err = 0
 		}
+		c.Code2 = []uint32{2, 3, 255, 1<<32 - 1}[pick(t, "code2", 4)]
+		if pick(t, "ext2", 5) < 2 {
+			// a second extended stream written concurrently with stderr (and stdout)
+			c.Ext2 = size("ext2")
+			if c.Err == 0 {
+				c.Err = size("err2")
+			}
+		}
 		c.OutChunk = []int{1, 7, 100, 4096, 40000, 1 << 20}[pick(t, "outchunk", 6)]
 		ng := pick(t, "ngrants", 12)
 		for g := 0; g < ng; g++ {
@@ -137,7 +147,7 @@ func genC35Plan(t *rapid.T) *c35Plan {
 		if c.In > 100000 && c.ReadBuf < 4096 {
 			c.ReadBuf = 4096
 		}
-		if n := (c.Out+c.Err)/1500 + 1; c.OutChunk < n {
+		if n := (c.Out+c.Err+c.Ext2)/1500 + 1; c.OutChunk < n {
 			c.OutChunk = n // bounds the number of Write calls
 		}
 		if n := (c.In+c.InErr)/2000 + 1; c.ReadBuf < n {
@@ -176,6 +186,7 @@ type c35Peer struct {
 	open           bool
 	credit         *mx.Credit // window refpeer granted to the Go side
 	gotOut, gotErr uint64     // stream offsets received
+	gotExt2        uint64
 	grantIdx       int
 	hugeDone       bool
 	overflowSent   bool
@@ -217,6 +228,7 @@ type c35Stats struct {
 	overflow          bool
 	huge              bool
 	dropBulk          bool
+	ext2              bool
 }
 
 func (r *c35Run) fail(format string, a ...any) {
@@ -238,7 +250,7 @@ func c35Seed(ch, stream int) uint32 { return uint32(ch*8 + stream + 1) }
 // on the refpeer reader goroutine.
 func (r *c35Run) maybeGrant(c *c35Peer) {
 	pl := c.plan
-	outstanding := uint64(pl.Out+pl.Err) > c.gotOut+c.gotErr
+	outstanding := uint64(pl.Out+pl.Err+pl.Ext2) > c.gotOut+c.gotErr+c.gotExt2
 	for c.credit.Window <= uint64(pl.GrantAt) && outstanding && !c.overflowSent {
 		var amt uint32
 		switch {
@@ -359,14 +371,18 @@ func (r *c35Run) peerLoop() {
 			off, seed := &c.gotOut, c35Seed(c.idx, 0)
 			want := uint64(c.plan.Out)
 			if m.Ext {
-				if m.Code != 1 {
-					r.fail("channel %d: extended data with type code %d, the application wrote to stderr (1)", c.idx, m.Code)
+				switch {
+				case m.Code == 1:
+					off, seed, want = &c.gotErr, c35Seed(c.idx, 1), uint64(c.plan.Err)
+				case m.Code == c.plan.Code2 && c.plan.Ext2 > 0:
+					off, seed, want = &c.gotExt2, c35Seed(c.idx, 5), uint64(c.plan.Ext2)
+				default:
+					r.fail("channel %d: extended data with type code %d, the application wrote to the codes 1 and %d only", c.idx, m.Code, c.plan.Code2)
 					continue
 				}
-				off, seed, want = &c.gotErr, c35Seed(c.idx, 1), uint64(c.plan.Err)
 			}
 			if i := mx.Verify(m.Data, seed, *off); i >= 0 {
-				r.fail("channel %d ext=%v: byte %d of the stream differs from what was written (reordered, duplicated or corrupted)", c.idx, m.Ext, *off+uint64(i))
+				r.fail("channel %d ext=%v code=%d: byte %d of the stream differs from what was written (reordered, duplicated, corrupted or sent under the wrong type code)", c.idx, m.Ext, m.Code, *off+uint64(i))
 				continue
 			}
 			*off += uint64(len(m.Data))
@@ -631,6 +647,19 @@ func runC35Refpeer(p *c35Plan) (string, c35Stats, error) {
 			r.stats.streams++
 			work.Go(func() { writer(ch.Stderr(), pl.Err, c35Seed(i, 1), "stderr") })
 		}
+		if pl.Ext2 > 0 {
+			// the second extended stream is reached the way the package's own tests reach it
+			x, ok := ch.(interface {
+				Extended(code uint32) io.ReadWriter
+			})
+			if !ok {
+				return finish(mx.Result{Verdict: mx.Inconclusive, Why: "the channel type has no Extended(code) method"}, "setup")
+			}
+			r.stats.streams++
+			r.stats.ext2 = true
+			code2 := pl.Code2
+			work.Go(func() { writer(x.Extended(code2), pl.Ext2, c35Seed(i, 5), fmt.Sprintf("extended stream %d", code2)) })
+		}
 		if pl.Requests > 0 {
 			work.Go(func() {
 				for k := 0; k < pl.Requests; k++ {
@@ -743,8 +772,8 @@ func runC35Refpeer(p *c35Plan) (string, c35Stats, error) {
 	if res.Verdict == mx.Done && r.violation() == "" {
 		// totals (everything the Go side wrote before the pong has been seen by the peer)
 		for _, c := range r.chans {
-			if c.gotOut != uint64(c.plan.Out) || c.gotErr != uint64(c.plan.Err) {
-				r.fail("channel %d: every Write returned, but the peer received %d/%d stdout and %d/%d stderr bytes", c.idx, c.gotOut, c.plan.Out, c.gotErr, c.plan.Err)
+			if c.gotOut != uint64(c.plan.Out) || c.gotErr != uint64(c.plan.Err) || c.gotExt2 != uint64(c.plan.Ext2) {
+				r.fail("channel %d: every Write returned, but the peer received %d/%d stdout, %d/%d stderr and %d/%d code-%d bytes", c.idx, c.gotOut, c.plan.Out, c.gotErr, c.plan.Err, c.gotExt2, c.plan.Ext2, c.plan.Code2)
 			}
 		}
 	}
@@ -1056,6 +1085,9 @@ func c35Classes(p *c35Plan, st c35Stats) []string {
 			add("out=0")
 		}
 	}
+	if st.ext2 {
+		cl = append(cl, "concurrent-writers-on-two-extended-codes")
+	}
 	if st.blockedOnZero > 0 {
 		cl = append(cl, "writer-blocked-on-zero-window")
 	}
@@ -1117,7 +1149,7 @@ func TestC35(t *testing.T) {
 		var key strings.Builder
 		fmt.Fprintf(&key, "%s|%v|", p.Mode, p.GoIsClient)
 		for _, ch := range p.Chans {
-			fmt.Fprintf(&key, "%v,%d,%d,%s%s%s%s%s,%d,%d,%d,%v%v%v;", ch.PeerOpens, ch.Window, ch.MaxPkt, sizeClass(ch.Out), sizeClass(ch.Err), sizeClass(ch.In), sizeClass(ch.InErr), sizeClass(ch.InDrop), ch.OutChunk, len(ch.Grants), ch.GrantAt, ch.Huge, ch.Overflow, ch.LateRead)
+			fmt.Fprintf(&key, "%v,%d,%d,%s%s%s%s%s,%d,%d,%d,%v%v%v;", ch.PeerOpens, ch.Window, ch.MaxPkt, sizeClass(ch.Out)+sizeClass(ch.Ext2), sizeClass(ch.Err), sizeClass(ch.In), sizeClass(ch.InErr), sizeClass(ch.InDrop), ch.OutChunk, len(ch.Grants), ch.GrantAt, ch.Huge, ch.Overflow, ch.LateRead)
 		}
 		c.Case(st.blockedOnZero > 0 || st.streams >= 2, key.String(), c35Classes(p, st)...)
 		if c.WantSample() {
